@@ -38,6 +38,11 @@ def gen(rng, tier):
             pol["raise_should"] = rng.choice([1, 2, 3])
         elif r < 0.5:
             pol["raise_sleep"] = rng.choice([1, 2])
+        elif r < 0.65:
+            pol["inherit_sleep"] = True     # sleep_time not overridden: the base class's 0
+            pol["sleep"] = 0
+        elif r < 0.7:
+            pol = {"kind": "base"}
     layers = [{"t": "retry", "policy": pol}]
     subs = {}
     for s in range(nsubs):
@@ -100,7 +105,14 @@ def check(spec, env):
         cs, es = calls.get(s, []), ends.get(s, [])
         if finals[s][0] == "pending":
             # the run ended (injected stalls can eat the settle time) before this submission
-            # finished: nothing can be concluded about counts or outcome (liveness is C03's)
+            # finished: nothing can be concluded about counts or outcome (liveness is C03's) -
+            # except that a policy which raised must end retrying with the callable's own outcome
+            ra = pol.get("raise_should") or pol.get("raise_sleep")
+            which = "should_retry" if pol.get("raise_should") else "sleep_time"
+            if stall_free and ra and any(e[3] == "ufn" and e[4] == which and e[6] == ra and e[7] == s for e in log):
+                out.append({"oracle": "policy-raised", "sig": "pending-after-policy-raised|%s" % which,
+                            "msg": "submission %d: %s raised at attempt %d, the future is still pending %.1f virtual seconds later "
+                                   "(a raising policy ends retrying with the callable's own outcome)" % (s, which, ra, spec.get("settle", 0))})
             continue
         # (a) attempts strictly one after another
         for k in range(1, len(cs)):
@@ -116,7 +128,7 @@ def check(spec, env):
             continue
         # (b) policy consulted once per finished attempt, attempt = 1, 2, 3, ...
         sr_calls = [e[6] for e in log if e[3] == "ufn" and e[4] == "should_retry" and e[7] == s]
-        if sr_calls != list(range(1, len(cs) + 1)):
+        if pk != "base" and sr_calls != list(range(1, len(cs) + 1)):
             out.append({"oracle": "policy-consultation", "sig": "should-retry-sequence|%s" % pk,
                         "msg": "submission %d: should_retry was called with attempts %r, expected %r"
                                % (s, sr_calls, list(range(1, len(cs) + 1)))})
@@ -124,7 +136,7 @@ def check(spec, env):
         exp_st = list(range(1, len(m["delays"]) + 1))
         if pol.get("raise_sleep") and len(cs) >= pol["raise_sleep"]:
             exp_st = list(range(1, pol["raise_sleep"] + 1))[len(exp_st):] and exp_st + [pol["raise_sleep"]] or exp_st
-        if st_calls != exp_st and not pol.get("raise_sleep"):
+        if st_calls != exp_st and not pol.get("raise_sleep") and not pol.get("inherit_sleep") and pk != "base":
             out.append({"oracle": "policy-consultation", "sig": "sleep-time-sequence|%s" % pk,
                         "msg": "submission %d: sleep_time was called with attempts %r, expected %r" % (s, st_calls, exp_st)})
         # (c) back-off: never earlier than the delay; exactly then when nothing competes
